@@ -65,7 +65,7 @@ func (op *LogOp) ApplyTo(cstate consensus.State) (consensus.State, error) {
 	// Raft may replay log entries right after starting, before the
 	// Cluster has handed us the RPC client. The tracker cannot be
 	// notified then (it will sync with the state when the peer is ready).
-	rpcClient := op.consensus.rpcClient
+	rpcClient := op.consensus.getRPCClient()
 
 	switch op.Type {
 	case LogOpPin:
